@@ -416,7 +416,8 @@ func getPtrEncodeHandler(t reflect.Type) (handler EncodeHandler) {
 		case reflect.Map:
 			handler = mapPtrEncode
 		case reflect.Ptr:
-			for t.Kind() == reflect.Ptr {
+			// (bounded: a type made of nothing but pointers, type P *P, has no element to reach)
+			for i := 0; t.Kind() == reflect.Ptr && i < 64; i++ {
 				t = t.Elem()
 			}
 			switch t.Kind() {
